@@ -24,6 +24,9 @@ type HOp struct {
 	// SharedAF > 0: the caller keeps ONE PacketAdaptationField object (number SharedAF) and passes the same pointer to every
 	// such WriteData call, as the doc comment of WriteData anticipates (content = the adaptation field of the first such op)
 	SharedAF int
+	// Edge: the PES optional header of this data op sits at the edge of the write contract (see edgeHeaders): the Muxer may accept
+	// or refuse it; when it accepts, the unit must be delivered but its header is not compared with the reference encoding
+	Edge bool
 }
 
 // HCall is what was observed for one operation.
